@@ -597,6 +597,11 @@ func (w *Whisper) propagate(archiveID int, ts []Timestamp, now Timestamp) (propa
 			return nil, err
 		}
 		values := filterValidValues(points, fromInterval, rHigh)
+		if len(values) == 0 {
+			// No known value (e.g. the finer slot written earlier in this
+			// batch was overwritten by a newer lap): nothing to aggregate.
+			continue
+		}
 		knownFactor := float32(len(values)) / float32(len(points))
 		if knownFactor < w.XFilesFactor() {
 			continue
